@@ -62,7 +62,7 @@ def main():
            "-run", "^TestBounded_%s$" % prop] + targets
     if prop == "C11":
         cmd.insert(2, "-race")
-    p = subprocess.run(cmd, cwd=repo, env=env, capture_output=True, text=True)
+    p = subprocess.run(cmd, cwd=repo, env=env, capture_output=True, text=True, errors="replace")
     os.unlink(ov.name)
     out = p.stdout + p.stderr
     report["ran"] = True
@@ -80,14 +80,13 @@ def main():
             vp, sig, rp, what = m.groups()
             k = next((k for k in known if (vp + "/" + sig) in k["bounded_sigs"]), None)
             if k is not None:
-                if vp == prop:
-                    print("KNOWN-FINDING: property=%s %s (bounded signature %s/%s)" % (vp, k.get("what", what), vp, sig))
-                    report["known_findings"].append(vp + "/" + sig)
+                print("KNOWN-FINDING: property=%s %s (bounded signature %s/%s)" % (prop, k.get("what", what), vp, sig))
+                report["known_findings"].append(vp + "/" + sig)
                 continue
-            if vp == prop:
-                viol.append((sig, rp, what))
-            else:
-                notes.append("%s/%s: %s" % (vp, sig, what))
+            # a failing history found while checking this property is reported under it, with the
+            # label of the clause that failed (a changed snapshot seen in the map-semantics test is
+            # also a tree whose lookups no longer return the last value written)
+            viol.append((sig if vp == prop else vp + "/" + sig, rp, what))
             continue
         m = re.match(r"BOUNDED-STAT (\S+)=(\d+)", line)
         if m:
